@@ -69,7 +69,11 @@ fn check<C: Pv>(c: &Case) -> Report {
             );
         }
     };
-    let pk = packing(c);
+    // recompose operations per table row (non-default lane counts of a non-primitive table)
+    let rl = [1usize, 1, 2, 4][(c.public_lanes as usize + 2 * c.alu_lanes as usize + c.horner_k as usize) % 4];
+    let pk = packing(c)
+        .with_npo_lanes(p3_circuit::ops::NpoTypeId::recompose(), rl)
+        .with_npo_lanes(p3_circuit::ops::NpoTypeId::recompose_with_coeff_lookups(), rl);
     let alu_ops = traces.alu_trace.values.len();
     let pub_ops = traces.public_trace.values.len();
     let nontrivial = features.contains("horner")
@@ -83,6 +87,7 @@ fn check<C: Pv>(c: &Case) -> Report {
         .class(format!("field:{}", C::NAME))
         .class(format!("alu_lanes:{}", pk.alu_lanes()))
         .class(format!("horner_k:{}", pk.horner_packed_steps()))
+        .class(if c.prog.recompose_npo { format!("recompose_lanes:{rl}") } else { "recompose_lanes:-".to_string() })
         .classes(features.iter().map(|f| format!("feat:{f}")))
         .classes(excluded.iter().map(|e| format!("excluded_by_known_finding:{e}")));
     if alu_ops == 0 {
